@@ -5,6 +5,7 @@ package harness
 import (
 	"context"
 	"fmt"
+	"strings"
 	"math/rand"
 	"sort"
 	"strconv"
@@ -456,6 +457,9 @@ func c08GenConfig(r *rand.Rand) *c08Config {
 		c.floor = sdk.NewInt64Coin(c08Denoms[0], 1905)
 	case 2:
 		c.floor = sdk.NewInt64Coin(c08Denoms[1], int64(1+r.Intn(3))) // base fee in the second denom
+		if r.Intn(4) == 0 {
+			c.floor = sdk.NewInt64Coin(c08Denoms[2], int64(1+r.Intn(2))) // ... or in the transfer denom
+		}
 	default:
 		c.floor = sdk.NewInt64Coin(c08Denoms[0], int64(1+r.Intn(5)))
 	}
@@ -491,7 +495,7 @@ func c08GenConfig(r *rand.Rand) *c08Config {
 		if r.Intn(25) == 0 {
 			amt = 0
 		}
-		e.coin = sdk.NewInt64Coin(c08Denoms[r.Intn(2)], amt)
+		e.coin = sdk.NewInt64Coin(c08Denoms[[]int{0, 0, 0, 0, 1, 1, 1, 1, 2}[r.Intn(9)]], amt)
 		if c.shared > 0 && r.Intn(5) != 0 {
 			e.recipient = c.shared
 			e.bips = []uint32{1, 2500, 3333, 5000, 9999, 10000}[r.Intn(6)]
@@ -687,6 +691,7 @@ type c08Tx struct {
 	granter int // 0 = none
 	signers []int
 	msgs    []c08Msg
+	explicitPayer bool // the fee payer is named in the AuthInfo and is not a signer of any message
 	sigOK   bool // false: the first signer signs for a sequence two ahead
 	forced  bool // put into the block without asking CheckTx
 	// filled in when the transaction is signed / run
@@ -711,6 +716,9 @@ func (n *c08Net) sign(t *c08Tx, seqs [c08NAcc]uint64) ([]byte, error) {
 	b.SetGasLimit(t.gas)
 	if t.granter > 0 {
 		b.SetFeeGranter(n.addrOf(t.granter))
+	}
+	if t.explicitPayer {
+		b.SetFeePayer(n.addrOf(t.payer))
 	}
 	mode := signing.SignMode(cfg.SignModeHandler().DefaultMode())
 	sigs := make([]signing.SignatureV2, len(t.signers))
@@ -1094,6 +1102,19 @@ func (g *c08Gen) plan(st *c08State, cfg *c08Config, o c08PlanOpts) *c08Plan {
 		p.bodyMode = "random"
 	}
 	t.signers = c08Signers(t.msgs)
+	if o.payer == 0 && o.body == nil && !strings.HasPrefix(p.bodyMode, "exchange") && r.Intn(10) == 0 {
+		// the fee payer field of the AuthInfo names an account that signs no message: it signs last,
+		// pays (or its granter does) and its sequence advances with the others'
+		fp := g.otherThan(t.payer)
+		in := false
+		for _, s := range t.signers {
+			in = in || s == fp
+		}
+		if !in {
+			t.signers = append(t.signers, fp)
+			t.payer, t.explicitPayer = fp, true
+		}
+	}
 	if r.Intn(40) == 0 {
 		t.sigOK = false
 	}
